@@ -507,6 +507,108 @@ func c10(r *Report) {
 				}
 			}
 		}
+		// a failed read ends the reader: from the non-nil edge of the ReadFrame error no path
+		// leads back to the select (a deadline that has expired stays expired: retrying spins
+		// for ever and never sees the close)
+		{
+			var errCells []ssa.Value
+			for _, in := range instrs(rf) {
+				gs, ok := in.(*ssa.Go)
+				if !ok {
+					continue
+				}
+				t := goTarget(gs)
+				if t == nil {
+					continue
+				}
+				for _, c := range calls(t) {
+					cc, isC := c.(*ssa.Call)
+					if !isC || !cc.Call.IsInvoke() && calleeName(cc) != "(*golang.org/x/net/http2.Framer).ReadFrame" {
+						continue
+					}
+					if calleeName(cc) != "(*golang.org/x/net/http2.Framer).ReadFrame" {
+						continue
+					}
+					for _, e := range errOf(cc) {
+						if e.Referrers() == nil {
+							continue
+						}
+						for _, u := range *e.Referrers() {
+							if st, isSt := u.(*ssa.Store); isSt {
+								errCells = append(errCells, resolveFree(st.Addr))
+							}
+						}
+					}
+				}
+			}
+			nTests, okRet := 0, true
+			for _, in := range instrs(rf) {
+				iff, ok := in.(*ssa.If)
+				if !ok {
+					continue
+				}
+				b, ok := iff.Cond.(*ssa.BinOp)
+				if !ok || (b.Op != token.NEQ && b.Op != token.EQL) || !(isNilConst(b.X) || isNilConst(b.Y)) {
+					continue
+				}
+				other := b.X
+				if isNilConst(b.X) {
+					other = b.Y
+				}
+				ld, ok := other.(*ssa.UnOp)
+				if !ok || ld.Op != token.MUL {
+					continue
+				}
+				isCell := false
+				for _, c := range errCells {
+					if ld.X == c {
+						isCell = true
+					}
+				}
+				if !isCell {
+					continue
+				}
+				nTests++
+				k := 0
+				if b.Op == token.EQL {
+					k = 1
+				}
+				if p := g.PathTo(blockStart(iff.Block().Succs[k]), true, isReturn, func(i ssa.Instruction) bool { _, y := i.(*ssa.Select); return y }); p != nil {
+					okRet = false
+				}
+			}
+			if nTests == 0 {
+				r.Undecided("(*M/h2.relay).relayFrames: test of the ReadFrame error", "UNRESOLVED")
+			} else {
+				r.Decide("path", "(*M/h2.relay).relayFrames: a failed read ends the reader", okRet, "every path from the error edge returns", "after a failed ReadFrame the reader can go round the loop again (a retry on timeout): an expired deadline stays expired, so the reader spins, never sees the peer close, and the relay call does not return", rf.Pos())
+			}
+		}
+		// the escape of a blocked hand-over is this relay's own done channel (closed when this
+		// relay's writer stops consuming r.output), not the peer's
+		if obf := r.Use("h2", "relay.outputBuffer"); obf != nil {
+			n := 0
+			for _, a := range allocsOf(obf, M+"/h2.outputBuffer") {
+				for _, st := range litFieldStores(a)["done"] {
+					n++
+					own := true
+					for _, l := range resolveAll(st.Val) {
+						l = unwrapConv(l)
+						ld, isLd := l.(*ssa.UnOp)
+						if !isLd {
+							own = false
+							continue
+						}
+						if fa, isFa := ld.X.(*ssa.FieldAddr); !isFa || fieldObj(fa).Name() != "done" || fa.X != ssa.Value(obf.Params[0]) {
+							own = false
+						}
+					}
+					r.Decide("flow", "(*M/h2.relay).outputBuffer: a stream buffer's escape is its own relay's done channel", own, "done: r.done", "the buffer's done channel is not the one closed when this relay's writer stops (e.g. the peer's): a sender blocked on this relay's full output channel is never released when this relay ends first", st.Pos())
+				}
+			}
+			if n == 0 {
+				r.Undecided("(*M/h2.relay).outputBuffer: done", "UNRESOLVED")
+			}
+		}
 		r.Decide("path", "(*M/h2.relay).relayFrames: the reader's select watches frameReady, writerErr and closing, and the latter two end the reader", okS, "three arms; error and shutdown arms return", "a writer error or shutdown does not stop the reader", rf.Pos())
 	})
 }
